@@ -192,6 +192,23 @@ func c03Eval(c *Ctx, cs Case) {
 	oldEntries := extractCertTable(img)
 	var sigs [][]byte
 	signedBy := map[int]bool{}
+	type heldImage struct {
+		step      int
+		out, snap []byte
+	}
+	var held []*heldImage
+	stillIntact := func(during string) {
+		for _, h := range held {
+			if !bytes.Equal(h.out, h.snap) {
+				d := 0
+				for d < len(h.out) && d < len(h.snap) && h.out[d] == h.snap[d] {
+					d++
+				}
+				fail(fmt.Sprintf("the bytes returned by Bytes() after step %d changed during %s (the result aliases memory that is reused)", h.step, during), fmt.Sprintf("first difference at offset %d of %d: %s", d, len(h.snap), hx(h.out[d:min(len(h.out), d+16)])), hx(h.snap[d:min(len(h.snap), d+16)]))
+				h.out = h.snap // reported once
+			}
+		}
+	}
 	for i, st := range steps {
 		cert, key := certOf(st.key)
 		var sig []byte
@@ -203,6 +220,11 @@ func c03Eval(c *Ctx, cs Case) {
 		signedBy[st.key] = true
 		c.Class(fmt.Sprintf("signature-length-mod-8=%d", len(sig)%8))
 		out := p.Bytes()
+		// every serialised image of the history is still held by the caller (written to disk later, compared,
+		// handed to a verifier): it is a value of its own and must not change when the object is signed and
+		// serialised again
+		stillIntact(fmt.Sprintf("Sign and Bytes() of step %d", i))
+		held = append(held, &heldImage{step: i, out: out, snap: append([]byte{}, out...)})
 		if st.reparse {
 			if pan, msg := safely(func() { p, err = authenticode.Parse(bytes.NewReader(out)) }); pan || err != nil {
 				fail(fmt.Sprintf("step %d: re-parsing the signed output failed", i), fmt.Sprint(msg, err), "")
@@ -300,6 +322,12 @@ func c03Eval(c *Ctx, cs Case) {
 			if d := p.Hash(crypto.SHA256); !bytes.Equal(d, before) {
 				fail(fmt.Sprintf("step %d: Hash() of the signed object differs from the digest before signing", i), hx(d), hx(before))
 			}
+			// serialising again without a change in between yields the same bytes as a second value
+			var again []byte
+			if pan, _ := safely(func() { again = p.Bytes() }); pan || !bytes.Equal(again, held[len(held)-1].snap) {
+				fail(fmt.Sprintf("step %d: a second Bytes() of the signed (or, after a re-parse step, re-parsed) object differs from the first", i), clip(hx(again)), "")
+			}
+			stillIntact(fmt.Sprintf("Signatures/Verify/Hash/Bytes of the object after step %d", i))
 		}
 		// ---- byte-exact correspondence with the Lean model (no re-parsing on the model side) ----
 		c.Trace()
@@ -346,7 +374,7 @@ func c03Gen(c *Ctx) {
 
 func init() {
 	register("C03", &PropDef{
-		Rule:   "well-formed images from the C01 generator (all layout classes; unsigned and with an existing 1- or 2-entry certificate table) x signing histories of 1..3 signatures by two RSA keys (one under a CA-issued certificate; 2048; thorough also 3072/4096) in any order, the same key possibly twice, under certificates whose names run through 8 consecutive lengths so that the signature length takes every residue mod 8, the signers' certificates sharing nothing / the serial number only / the issuer name only, with serialise/re-parse after a random subset of steps; after every step the output bytes are checked by an independent walker, its digest by the Lean Spec, and the 3-certificate verification matrix by the library, the Lean Impl model and the Lean Spec. Every case is non-trivial; distinct = distinct (image spec, history).",
+		Rule:   "well-formed images from the C01 generator (all layout classes; unsigned and with an existing 1- or 2-entry certificate table) x signing histories of 1..3 signatures by two RSA keys (one under a CA-issued certificate; 2048; thorough also 3072/4096) in any order, the same key possibly twice, under certificates whose names run through 8 consecutive lengths so that the signature length takes every residue mod 8, the signers' certificates sharing nothing / the serial number only / the issuer name only, with serialise/re-parse after a random subset of steps; every third image carries a left-over certificate-table address with size 0 in its directory entry (address classes as in C01: 1, inside headers / sections / trailing data, end of sections, file end, padded file end, beyond the file, 2^32-1), i.e. an image whose signatures were removed by clearing the size; every serialised image of a history stays held (with a private copy) while the object is signed, queried and serialised again and is compared with its copy after each step, and each step serialises twice; after every step the output bytes are checked by an independent walker, its digest by the Lean Spec, and the 3-certificate verification matrix by the library, the Lean Impl model and the Lean Spec. Every case is non-trivial; distinct = distinct (image spec, history).",
 		Assume: []string{"no two signing certificates share both issuer and serial (two different keys under one issuer+serial make the verification loop stop with an error at the first of them; noted, not claimed)", "RSA PKCS#1 v1.5 signatures are deterministic"},
 		Eval:   c03Eval, Gen: c03Gen,
 	})
